@@ -20,9 +20,13 @@ HFromHa(ha) == BAdd(BMod(BFromBE(ha), NM1), <<1>>)
 HRange(prefix, z) == HFromHa(Ha(prefix, z))
 H1(id, hid) == HRange(1, id \o <<hid>>)
 H2(msg, wbytes) == HRange(2, msg \o wbytes)
-RECURSIVE KdfR(_,_,_,_)
-KdfR(z, klen, ct, acc) == IF Len(acc) >= klen THEN SubSeq(acc, 1, klen) ELSE KdfR(z, klen, ct+1, acc \o Sm3(z \o <<ct \div 16777216, (ct \div 65536) % 256, (ct \div 256) % 256, ct % 256>>))
-KDF(z, klen) == KdfR(z, klen, 1, <<>>)
+\* (chunked like SM2.tla's KDF: shallow evaluation stack for long outputs, accumulators forced per level)
+U32B(ct) == <<ct \div 16777216, (ct \div 65536) % 256, (ct \div 256) % 256, ct % 256>>
+RECURSIVE KdfC(_,_,_,_)
+KdfC(z, ct, to, acc) == IF Len(acc) >= 0 /\ ct > to THEN acc ELSE KdfC(z, ct + 1, to, acc \o Sm3(z \o U32B(ct)))
+RECURSIVE KdfG(_,_,_,_)
+KdfG(z, ct, nb, acc) == IF Len(acc) >= 0 /\ ct > nb THEN acc ELSE KdfG(z, ct + 32, nb, KdfC(z, ct, IF ct + 31 < nb THEN ct + 31 ELSE nb, acc))
+KDF(z, klen) == SubSeq(KdfG(z, 1, (klen + 31) \div 32, <<>>), 1, klen)
 MAC(k2, z) == Sm3(z \o k2)
 XorS(a, b) == [j \in 1..Len(a) |-> a[j] ^^ b[j]]
 AllZero(t) == \A j \in 1..Len(t) : t[j] = 0
